@@ -28,8 +28,8 @@ SCENE_BIAS = {
     "oper": ["oper_cycle", "wallops_rename", "case_twins"],
     "stats": ["oper_cycle", "quota_invisible", "wallops_rename"],
     "endings": ["wallops_rename", "oper_cycle", "invite_recreate", "pre_rename", "late_cap", "late_cap"],
-    "msg": ["flood_targets", "voice_rename", "moderated_prefix", "case_twins", "ban_case"],
-    "speak": ["list_masks", "moderated_prefix", "ban_case", "case_twins", "voice_rename", "flood_targets"],
+    "msg": ["multi_prefix", "multi_prefix", "flood_targets", "voice_rename", "moderated_prefix", "case_twins", "ban_case"],
+    "speak": ["multi_prefix", "list_masks", "moderated_prefix", "ban_case", "case_twins", "voice_rename", "flood_targets"],
     "general": ["kick_repeat", "halfop_mode", "kick_ranks"],
 }
 
@@ -293,12 +293,12 @@ class Gen:
 
     # ------------------------------------------------------------------ scenes
     # short scripted interactions of two or three conditions that random choice rarely lines up
-    def new_conn(self, limit=16):
+    def new_conn(self, limit=16, host=None):
         if len(self.conns) >= limit:
             return None
         c = len(self.conns) + 1
         self.conns[c] = {"live": True, "nick": None, "done": False}
-        self.ops.append("connect %d %s" % (c, self.r.choice(HOSTS)))
+        self.ops.append("connect %d %s" % (c, host or self.r.choice(HOSTS)))
         return c
 
     def reg_scene(self):
@@ -314,6 +314,30 @@ class Gen:
         n1 = r.choice(free)
         n2 = r.choice([x for x in free if x != n1] or ["zz8"])
         pws = [p for p in (self.server_pw, self.cfg_users.get("reg")) if p] + ["wrong"]
+        if r.random() < 0.25:
+            # twins: a refused connection that looks exactly like the owner (same nick asked for, same user name, same host)
+            # still is not the owner - its end removes nobody
+            host = r.choice(HOSTS)
+            self.ops[-1] = "connect %d %s" % (c, host)
+            pw = self.server_pw
+            if pw: L(c, "PASS " + pw)
+            L(c, "NICK " + n1)
+            d = self.new_conn(host=host)
+            if d is None:
+                return
+            if pw: L(d, "PASS " + pw)
+            L(d, "NICK " + n1); L(d, "USER tw 0 * :Twin")
+            if r.random() < 0.5:
+                L(c, "USER tw 0 * :Twin")      # refused at completion (433) ... or never completes at all
+            self.conns[d]["nick"] = n1; self.conns[d]["done"] = True
+            end = r.choice(["eof", "reset", "quit", "quit"])
+            if end == "quit":
+                L(c, "QUIT :bye")
+            else:
+                self.ops.append("%s %d" % (end, c))
+            self.conns[c]["live"] = False
+            L(d, "WHOIS " + n1); L(d, "LUSERS"); L(d, "PRIVMSG %s :still here" % n1)
+            return
         k = r.choice(["overtaken", "overtaken", "taken_then_user", "pass_twice", "user_twice", "cap_mid"])
         if self.max_conns and r.random() < 0.5:
             # connection slots: fill up to the limit, be refused, free a slot, connect again - a refusal uses up nothing
@@ -524,7 +548,7 @@ class Gen:
         k = r.choice(["invite_key", "invite_recreate", "invite_ban", "ranks_ladder", "halfop_mode", "quota_invisible",
                       "voice_rename", "wallops_rename", "flood_targets", "limit_invite", "case_twins", "kick_ranks",
                       "secret_whois", "oper_cycle", "moderated_prefix", "ban_case", "rejoin_list", "topic_lock",
-                      "rename_masks", "kick_repeat", "pre_rename", "invite_ranks", "late_cap", "pre_bans", "list_masks"])
+                      "rename_masks", "kick_repeat", "pre_rename", "invite_ranks", "late_cap", "pre_bans", "list_masks", "multi_prefix"])
         bias = SCENE_BIAS.get(self.profile)
         if bias and r.random() < 0.5:
             k = r.choice(bias)
@@ -692,6 +716,16 @@ class Gen:
                 L(a, "MODE %s +%s %s" % (ch, letter, short)); L(a, "MODE %s %s" % (ch, letter))
                 L(a, "MODE %s -%s %s" % (ch, letter, r.choice([short, short, full, short.upper()])))
                 L(a, "MODE %s %s" % (ch, letter)); L(b, "PART " + ch); L(a, "MODE %s +i" % ch); L(b, "JOIN " + ch)
+        elif k == "multi_prefix":
+            # targets naming several statuses: every member holding ANY of them gets exactly one copy
+            L(a, "JOIN " + ch); L(b, "JOIN " + ch)
+            if c3: L(c3, "JOIN " + ch)
+            L(a, "MODE %s +%s %s" % (ch, r.choice(["v", "h", "a", "hv", "av", "o"]), " ".join([nb] * 2)))
+            if c3 and r.random() < 0.6:
+                L(c3, "PART " + ch)
+            for _ in range(r.choice([2, 3])):
+                pre = r.choice(["~&@", "~&@%+", "&@", "~%+", "@%+", "~&", "~@", "&@%", "+%@&~", "~+", "&+"])
+                L(r.choice([a, b]), "%s %s%s :to %s" % (r.choice(["PRIVMSG", "NOTICE"]), pre, ch, pre))
         elif k == "late_cap":
             # capability negotiation re-opened AFTER registration and closed again: nothing about the session changes
             L(b, r.choice(["CAP REQ :multi-prefix", "CAP LS 302", "CAP LS", "CAP REQ :foo", "CAP LIST"]))
